@@ -268,6 +268,13 @@ fn run_sequence(rec: &mut Recorder, rt: &tokio::runtime::Runtime, dir: &std::pat
         let warns = l.log.iter().filter(|x| x.starts_with("WARN ") && x.contains("Invalid queue length")).count();
         for o in odd { fails.push(format!("configload:text:{}", o.replace(' ', "_").chars().take(60).collect::<String>())); }
         let as_set = |v: &Vec<String>| -> BTreeSet<String> { v.iter().cloned().collect() };
+        // ---- what the disk alone says (no model): the file and the script decide these whatever the document is
+        let accepted = matches!(l.res, Res::Ok(_));
+        if !st.exists && class != "io" { fails.push(format!("configload:io:missing-file-not-reported a file that does not exist gave `{class}`")); }
+        if st.exists && class == "io" { fails.push("configload:io:existing-file-not-read".into()); }
+        if (st.script == 'm' || st.script == 'b') && accepted { fails.push("configload:roto:uncompilable-script-accepted a configuration whose roto_script is missing or does not compile was loaded".into()); }
+        if matches!(st.script, '-' | 'g' | 'G') && class == "roto" { fails.push(format!("configload:roto:good-script-rejected roto_script {} (relative to the configuration file's directory, or absolute) was refused", st.script)); }
+        if accepted { let want = st.opts.iter().filter(|o| std::str::from_utf8(o).ok().and_then(|t| t.parse::<usize>().ok()).is_none()).count(); if want != warns { fails.push(format!("configload:queue-len:warnings {want} link options are no unsigned integers, {warns} warnings")); } }
         let tok = match &l.res {
             Res::Ok(a) => { any_ok = true; if class != "none" { fails.push(format!("configload:accepted-with-error-text a loaded configuration logged an error of class {class}")); } format!("ok:{} q{}", a.join(","), warns) }
             Res::Panic => { fails.push(format!("configload:panic loading a configuration file panicked: {}", PANICS.lock().unwrap().last().cloned().unwrap_or_default())); "panic".to_string() }
@@ -325,7 +332,7 @@ fn live_queue(rec: &mut Recorder, rt: &tokio::runtime::Runtime, opt: &[u8]) -> b
         manager.prepare(&config, &file).ok()?;
         let before = manager.link_report_updated_at();
         manager.spawn(&mut config);
-        Some(rt.block_on(async { for _ in 0..400 { if manager.link_report_updated_at() != before || !PANICS.lock().unwrap().is_empty() { break; } tokio::time::sleep(Duration::from_millis(5)).await; } manager.link_report_updated_at() != before }))
+        Some(rt.block_on(async { for _ in 0..3000 { if manager.link_report_updated_at() != before || !PANICS.lock().unwrap().is_empty() { break; } tokio::time::sleep(Duration::from_millis(5)).await; } manager.link_report_updated_at() != before }))
     })();
     let panics = PANICS.lock().unwrap().clone();
     if std::env::var("CL_DEBUG").is_ok() { eprintln!("debug: live panics {:?} log {:?}", panics, LOG.lock().unwrap()); }
